@@ -69,7 +69,7 @@ Lemma read_centroids_flat : forall cs rest cw,
   read_centroids false (length cs) (flat_map enc_centroid cs ++ rest) cw = Ok (cs, cw + sumwN cs, rest).
 Proof.
   induction cs as [|c cs IH]; intros rest cw Hall Hs.
-  - cbn [length read_centroids flat_map app sumwN fold_right]. repeat f_equal. lia.
+  - replace (cw + sumwN []) with cw by (unfold sumwN; cbn [fold_right]; lia). reflexivity.
   - inversion Hall as [|? ? (H1 & H2 & H3 & H4) Hall']; subst.
     rewrite sumwN_cons in Hs. cbn [length read_centroids flat_map]. unfold enc_centroid at 1. rewrite <- !app_assoc.
     unfold rd_float_le. rewrite rd_le_app by (rewrite p8; exact H1). cbn [obind fst snd].
@@ -77,70 +77,72 @@ Proof.
     rewrite H2. cbn [negb].
     replace (snd c =? 0) with false by lia.
     replace (U64MAX <? cw + snd c) with false by (unfold U64MAX, P64 in *; lia).
-    rewrite IH by (auto; lia). cbn [obind]. rewrite sumwN_cons. destruct c. cbn [fst snd]. repeat f_equal. lia.
+    rewrite IH by (auto; lia). cbn [obind]. rewrite sumwN_cons.
+    replace (cw + snd c + sumwN cs) with (cw + (snd c + sumwN cs)) by lia. destruct c. reflexivity.
 Qed.
 
 (* ---------------- C11: deserialize (serialize s) = s ---------------- *)
+Ltac flag_eval :=
+  repeat match goal with
+         | |- context [negb (N.land ?a ?b =? 0)] =>
+             let v := eval vm_compute in (negb (N.land a b =? 0)) in change (negb (N.land a b =? 0)) with v
+         end.
+Ltac rd1 := rewrite rd_le_byte; cbn [obind fst snd].
+
 Theorem tdb_roundtrip s : wfb s -> tdb_dec false (tdb_enc s) = Ok s.
 Proof.
   intros [[Hk1 Hk2] Hbuf Hcs Hn [Hcw Hcwb] [Hmin Hminn] [Hmax Hmaxn] Hempty Hsingle].
   destruct s as [k rv mn mx cs cw buf]. cbn [b_k b_rev b_min b_max b_cs b_cw b_buf] in *. subst buf.
-  unfold tdb_enc, tdb_is_empty, tdb_is_single, tdb_total, enc_flags.
+  unfold tdb_enc, enc_flags, tdb_is_empty, tdb_is_single, tdb_total.
   cbn [b_k b_rev b_min b_max b_cs b_cw b_buf length].
   replace (cw + N.of_nat 0) with cw by lia.
   assert (HM : MINK = 10) by reflexivity.
   destruct cs as [|c0 cs'].
   - (* empty *)
-    destruct (Hempty eq_refl) as (-> & -> & ->). cbn [sumwN fold_right] in Hcw. subst cw.
-    change (0 <=? 1) with true. change (0 =? 1) with false.
-    change ((if true then F_EMPTY else 0) + (if false then F_SINGLE else 0) + (if false then F_REV else 0)) with (flagsN true false false).
-    cbn [app]. unfold tdb_dec.
-    rewrite !rd_le_byte. cbn [obind fst snd]. rewrite !N.eqb_refl. cbn [negb].
+    destruct (Hempty eq_refl) as (-> & -> & ->). unfold sumwN in Hcw. cbn [fold_right] in Hcw. subst cw.
+    change (0 <=? 1) with true. change (0 =? 1) with false. cbn [app]. unfold tdb_dec.
+    do 3 rd1. rewrite !N.eqb_refl. cbn [negb].
     rewrite rd_le_app by (rewrite p2; lia). cbn [obind fst snd].
     replace (k <? MINK) with false by lia.
-    rewrite rd_le_byte. cbn [obind fst snd]. rewrite flag_empty, flag_single. cbn [orb]. rewrite N.eqb_refl. cbn [negb].
-    rewrite (app_nil_end (le_bytes 2 0)) at 1. rewrite rd_le_app by (rewrite p2; lia). cbn [obind fst snd].
+    rd1. flag_eval. cbn [orb]. rewrite N.eqb_refl. cbn [negb].
+    rewrite rd_le_app by (rewrite p2; lia). cbn [obind fst snd].
     reflexivity.
   - destruct (N.eqb_spec cw 1) as [E1|E1].
     + (* single value *)
-      subst cw. destruct (Hsingle eq_refl) as [Ecs Emx]. inversion Ecs; subst c0 cs'. subst mx.
-      change (1 <=? 1) with true.
-      change ((if false then F_EMPTY else 0) + (if true then F_SINGLE else 0) + (if rv then F_REV else 0)) with (flagsN false true rv).
-      cbn [app]. unfold tdb_dec.
-      rewrite !rd_le_byte. cbn [obind fst snd]. rewrite !N.eqb_refl. cbn [negb].
-      rewrite rd_le_app by (rewrite p2; lia). cbn [obind fst snd].
-      replace (k <? MINK) with false by lia.
-      rewrite rd_le_byte. cbn [obind fst snd]. rewrite flag_empty, flag_single, flag_rev. cbn [orb]. rewrite N.eqb_refl. cbn [negb].
-      rewrite rd_le_app by (rewrite p2; lia). cbn [obind fst snd].
-      unfold rd_float_le. rewrite (app_nil_end (le_bytes 8 mn)). rewrite rd_le_app by (rewrite p8; lia). cbn [obind fst snd].
-      inversion Hcs as [|? ? (_ & Hf & _) _]; subst. cbn [fst] in Hf. rewrite Hf. cbn [negb]. reflexivity.
+      destruct (Hsingle E1) as [Ecs Emx]. inversion Ecs; subst c0 cs'. subst mx. clear Hcw. subst cw.
+      change (1 <=? 1) with true. destruct rv; cbn [app]; unfold tdb_dec.
+      all: do 3 rd1; rewrite !N.eqb_refl; cbn [negb].
+      all: rewrite rd_le_app by (rewrite p2; lia); cbn [obind fst snd].
+      all: replace (k <? MINK) with false by lia.
+      all: rd1; flag_eval; cbn [orb]; rewrite N.eqb_refl; cbn [negb].
+      all: rewrite rd_le_app by (rewrite p2; lia); cbn [obind fst snd].
+      all: unfold rd_float_le; rewrite (app_nil_end (le_bytes 8 mn)); rewrite rd_le_app by (rewrite p8; lia); cbn [obind fst snd].
+      all: inversion Hcs as [|? ? (_ & Hf & _) _]; subst; cbn [fst] in Hf; rewrite Hf; cbn [negb]; reflexivity.
     + (* general form *)
       assert (Hc2 : 2 <= cw).
       { inversion Hcs as [|? ? (_ & _ & Hw & _) Hall']; subst. rewrite sumwN_cons in *.
         destruct cs' as [|c1 cs''].
-        - cbn [sumwN fold_right] in *. lia.
+        - unfold sumwN in *. cbn [fold_right] in *. lia.
         - inversion Hall' as [|? ? (_ & _ & Hw1 & _) _]; subst. rewrite sumwN_cons in *. lia. }
-      replace (cw <=? 1) with false by lia.
-      change ((if false then F_EMPTY else 0) + (if false then F_SINGLE else 0) + (if rv then F_REV else 0)) with (flagsN false false rv).
-      cbn [app]. unfold tdb_dec.
-      rewrite !rd_le_byte. cbn [obind fst snd]. rewrite !N.eqb_refl. cbn [negb].
-      rewrite rd_le_app by (rewrite p2; lia). cbn [obind fst snd].
-      replace (k <? MINK) with false by lia.
-      rewrite rd_le_byte. cbn [obind fst snd]. rewrite flag_empty, flag_single, flag_rev. cbn [orb]. rewrite N.eqb_refl. cbn [negb].
-      rewrite rd_le_app by (rewrite p2; lia). cbn [obind fst snd].
-      rewrite rd_le_app by (rewrite p4; exact Hn). cbn [obind fst snd].
-      rewrite rd_le_app by (rewrite p4; lia). cbn [obind fst snd].
-      unfold rd_float_le. rewrite rd_le_app by (rewrite p8; lia). cbn [obind fst snd].
-      rewrite rd_le_app by (rewrite p8; lia). cbn [obind fst snd].
-      rewrite Hminn, Hmaxn. cbn [orb].
-      rewrite flat_centroids_length.
-      replace (N.of_nat (16 * length (c0 :: cs')) <? N.of_nat (length (c0 :: cs')) * (8 + 8) + 0 * 8) with false by lia.
-      rewrite Nat2N.id.
-      rewrite (app_nil_end (flat_map enc_centroid (c0 :: cs'))).
-      rewrite read_centroids_flat by (auto; lia). cbn [obind]. cbv beta iota.
-      replace (U64MAX <? 0 + sumwN (c0 :: cs') + 0) with false by (unfold U64MAX, P64 in *; lia).
-      cbn [N.to_nat read_values obind fst snd]. change (N.to_nat 0) with 0%nat. cbn [read_values obind fst snd].
-      repeat f_equal. lia.
+      replace (cw <=? 1) with false by lia. destruct rv; cbn [app]; unfold tdb_dec.
+      all: do 3 rd1; rewrite !N.eqb_refl; cbn [negb].
+      all: rewrite rd_le_app by (rewrite p2; lia); cbn [obind fst snd].
+      all: replace (k <? MINK) with false by lia.
+      all: rd1; flag_eval; cbn [orb]; rewrite N.eqb_refl; cbn [negb].
+      all: rewrite rd_le_app by (rewrite p2; lia); cbn [obind fst snd].
+      all: rewrite rd_le_app by (rewrite p4; exact Hn); cbn [obind fst snd].
+      all: rewrite rd_le_app by (rewrite p4; lia); cbn [obind fst snd].
+      all: unfold rd_float_le; rewrite rd_le_app by (rewrite p8; lia); cbn [obind fst snd].
+      all: rewrite rd_le_app by (rewrite p8; lia); cbn [obind fst snd].
+      all: rewrite Hminn, Hmaxn; cbn [orb].
+      all: rewrite flat_centroids_length.
+      all: replace (N.of_nat (16 * length (c0 :: cs')) <? N.of_nat (length (c0 :: cs')) * (8 + 8) + 0 * 8) with false by lia.
+      all: rewrite Nat2N.id.
+      all: rewrite (app_nil_end (flat_map enc_centroid (c0 :: cs'))).
+      all: rewrite read_centroids_flat by (auto; lia); cbn [obind]; cbv beta iota.
+      all: replace (U64MAX <? 0 + sumwN (c0 :: cs') + 0) with false by (unfold U64MAX, P64 in *; lia).
+      all: change (N.to_nat 0) with 0%nat; cbn [read_values obind fst snd].
+      all: replace (0 + sumwN (c0 :: cs')) with cw by lia; reflexivity.
 Qed.
 
 (* ---------------- C14: never stuck ---------------- *)
@@ -158,10 +160,11 @@ Proof. unfold rd_float_le. destruct f; [apply obind_ns; [apply rd_le_ns|discrimi
 Ltac ns :=
   repeat first
     [ discriminate
+    | progress cbv zeta
     | apply rd_le_ns | apply rd_be_ns | apply rd_float_ns
     | apply obind_ns; [|intros ?]
     | match goal with |- (if ?c then _ else _) <> Stuck => destruct c end
-    | match goal with |- (let '(_, _) := ?p in _) <> Stuck => destruct p end ].
+    | match goal with |- (match ?p with _ => _ end) <> Stuck => destruct p end ].
 
 Lemma read_centroids_ns f : forall n bs cw, read_centroids f n bs cw <> Stuck.
 Proof. induction n as [|n IH]; intros bs cw; cbn [read_centroids]; ns. apply IH. Qed.
@@ -171,19 +174,31 @@ Lemma read_compat_ns f : forall n bs cw, read_compat f n bs cw <> Stuck.
 Proof. induction n as [|n IH]; intros bs cw; cbn [read_compat]; ns. apply IH. Qed.
 
 Lemma dec_compat_ns bs : tdb_dec_compat bs <> Stuck.
-Proof. unfold tdb_dec_compat. ns; apply read_compat_ns. Qed.
+Proof. unfold tdb_dec_compat. cbv zeta. ns; apply read_compat_ns. Qed.
 
 Theorem tdb_dec_never_stuck f bs : tdb_dec f bs <> Stuck.
 Proof.
-  unfold tdb_dec. ns; try apply dec_compat_ns; try apply read_centroids_ns; try apply read_values_ns.
+  unfold tdb_dec. cbv zeta. ns; try apply dec_compat_ns; try apply read_centroids_ns; try apply read_values_ns;
+    try apply read_compat_ns.
 Qed.
 
 (* ---------------- C14: whatever is accepted is well-shaped ---------------- *)
+Lemma rd_le_len n bs v r : rd_le n bs = Ok (v, r) -> (length r + n = length bs)%nat.
+Proof. unfold rd_le. destruct (Nat.ltb_spec (length bs) n); [discriminate|]. intros E. inversion E; subst. rewrite skipn_length. lia. Qed.
+Lemma rd_be_len n bs v r : rd_be n bs = Ok (v, r) -> (length r + n = length bs)%nat.
+Proof. unfold rd_be. destruct (Nat.ltb_spec (length bs) n); [discriminate|]. intros E. inversion E; subst. rewrite skipn_length. lia. Qed.
+Lemma rd_float_len f bs v r : rd_float_le f bs = Ok (v, r) -> (length r + (if f then 4 else 8) = length bs)%nat.
+Proof.
+  unfold rd_float_le. destruct f.
+  - destruct (rd_le 4 bs) as [[v0 r0]| |] eqn:E; cbn [obind]; try discriminate. intros H; inversion H; subst. apply rd_le_len in E. cbn [snd]. lia.
+  - intros H. apply rd_le_len in H. lia.
+Qed.
+
 Definition value_ok (b : N) : Prop := finite_ok b = true.
 
 Lemma read_centroids_shape f : forall n bs cw cs cw' rest,
   read_centroids f n bs cw = Ok (cs, cw', rest) ->
-  length cs = n /\ cw' = cw + sumwN cs /\ cw' <= U64MAX + cw - cw /\
+  length cs = n /\ cw' = cw + sumwN cs /\
   Forall (fun c => value_ok (fst c) /\ 1 <= snd c) cs /\ (cw <= U64MAX -> cw' <= U64MAX) /\
   (length rest + (if f then 8 else 16) * n = length bs)%nat.
 Proof.
@@ -195,17 +210,11 @@ Proof.
     destruct (N.eqb_spec w 0); [discriminate|].
     destruct (N.ltb_spec U64MAX (cw + w)); [discriminate|].
     destruct (read_centroids f n r2 (cw + w)) as [[[cs0 cw0] rest0]| |] eqn:E3; cbn [obind] in H; try discriminate.
-    inversion H; subst. apply IH in E3 as (L & S1 & _ & F & B & Len).
+    inversion H; subst. apply IH in E3 as (L & S1 & F & B & Len).
     assert (Hlen : (length r2 + (if f then 8 else 16) = length bs)%nat).
-    { unfold rd_float_le, rd_le in *. destruct f.
-      - destruct (Nat.ltb_spec (length bs) 4); cbn [obind] in E1; [discriminate|]. inversion E1; subst.
-        destruct (Nat.ltb_spec (length (skipn 4 bs)) 4); [discriminate|]. inversion E2; subst.
-        rewrite !skipn_length in *. lia.
-      - destruct (Nat.ltb_spec (length bs) 8); [discriminate|]. inversion E1; subst.
-        destruct (Nat.ltb_spec (length (skipn 8 bs)) 8); [discriminate|]. inversion E2; subst.
-        rewrite !skipn_length in *. lia. }
+    { apply rd_float_len in E1. apply rd_le_len in E2. destruct f; lia. }
     rewrite sumwN_cons. cbn [fst snd length]. repeat split; auto; try lia.
-    constructor; [split; [exact Ef|lia]|exact F].
+    constructor; [cbn [fst snd]; split; [exact Ef|lia]|exact F].
 Qed.
 
 Lemma read_values_shape f : forall n bs vs rest,
@@ -217,11 +226,8 @@ Proof.
     destruct (finite_ok v) eqn:Ef; cbn [negb] in H; [|discriminate].
     destruct (read_values f n r1) as [[vs0 rest0]| |] eqn:E3; cbn [obind fst snd] in H; try discriminate.
     inversion H; subst. apply IH in E3 as (L & F & Len).
-    assert (Hlen : (length r1 + (if f then 4 else 8) = length bs)%nat).
-    { unfold rd_float_le, rd_le in *. destruct f.
-      - destruct (Nat.ltb_spec (length bs) 4); cbn [obind] in E1; [discriminate|]. inversion E1; subst. rewrite skipn_length. lia.
-      - destruct (Nat.ltb_spec (length bs) 8); [discriminate|]. inversion E1; subst. rewrite skipn_length. lia. }
-    cbn [length]. repeat split; auto; try lia. constructor; auto.
+    assert (Hlen : (length r1 + (if f then 4 else 8) = length bs)%nat) by (apply rd_float_len in E1; exact E1).
+    cbn [length]. repeat split; auto; try lia.
 Qed.
 
 Lemma read_compat_shape f : forall n bs cw cs cw',
@@ -241,15 +247,9 @@ Proof.
     destruct (read_compat f n r2 (cw + wv)) as [[cs0 cw0]| |] eqn:E3; cbn [obind fst snd] in H; try discriminate.
     inversion H; subst. apply IH in E3 as (L & S1 & F & B & Len).
     assert (Hlen : (length r2 + (if f then 8 else 16) = length bs)%nat).
-    { unfold rd_be in *. destruct f.
-      - destruct (Nat.ltb_spec (length bs) 4); [discriminate|]. inversion E1; subst.
-        destruct (Nat.ltb_spec (length (skipn 4 bs)) 4); [discriminate|]. inversion E2; subst.
-        rewrite !skipn_length in *. lia.
-      - destruct (Nat.ltb_spec (length bs) 8); [discriminate|]. inversion E1; subst.
-        destruct (Nat.ltb_spec (length (skipn 8 bs)) 8); [discriminate|]. inversion E2; subst.
-        rewrite !skipn_length in *. lia. }
+    { apply rd_be_len in E1, E2. destruct f; lia. }
     rewrite sumwN_cons. cbn [fst snd length]. repeat split; auto; try lia.
-    constructor; [split; [exact Ef|lia]|exact F].
+    constructor; [cbn [fst snd]; split; [exact Ef|lia]|exact F].
 Qed.
 
 (* what an accepted image is: the shape every later operation relies on *)
@@ -262,17 +262,6 @@ Record shaped (s : tdb) (inlen : nat) : Prop := {
   sh_minmax : tdb_is_empty s = false -> is_nan64 (b_min s) = false /\ is_nan64 (b_max s) = false;
   sh_input : (8 * length (b_cs s) + 4 * length (b_buf s) <= inlen)%nat   (* every item was present in the input *)
 }.
-
-Lemma rd_le_len n bs v r : rd_le n bs = Ok (v, r) -> (length r + n = length bs)%nat.
-Proof. unfold rd_le. destruct (Nat.ltb_spec (length bs) n); [discriminate|]. intros H. inversion H; subst. rewrite skipn_length. lia. Qed.
-Lemma rd_be_len n bs v r : rd_be n bs = Ok (v, r) -> (length r + n = length bs)%nat.
-Proof. unfold rd_be. destruct (Nat.ltb_spec (length bs) n); [discriminate|]. intros H. inversion H; subst. rewrite skipn_length. lia. Qed.
-Lemma rd_float_len f bs v r : rd_float_le f bs = Ok (v, r) -> (length r <= length bs)%nat.
-Proof.
-  unfold rd_float_le. destruct f.
-  - destruct (rd_le 4 bs) as [[v0 r0]| |] eqn:E; cbn [obind]; try discriminate. intros H; inversion H; subst. apply rd_le_len in E. cbn [snd]. lia.
-  - intros H. apply rd_le_len in H. lia.
-Qed.
 
 Theorem dec_compat_shape bs s : tdb_dec_compat bs = Ok s -> shaped s (length bs).
 Proof.
@@ -288,10 +277,10 @@ Proof.
     destruct (rd_be 4 r3) as [[n r4]| |] eqn:E4; cbn [obind fst snd]; try discriminate.
     destruct (_ <? _); [discriminate|].
     destruct (read_compat false (N.to_nat n) r4 0) as [[cs cw]| |] eqn:E5; cbn [obind fst snd]; try discriminate.
-    intros H; inversion H; subst. apply read_compat_shape in E5 as (L & S1 & F & B & Len).
+    intros HH; inversion HH; subst. apply read_compat_shape in E5 as (L & S1 & F & B & Len).
     apply rd_be_len in E1, E2, E3, E4.
-    constructor; cbn [b_k b_cs b_buf b_cw b_min b_max tdb_total tdb_is_empty length]; auto; try lia.
-    + specialize (B ltac:(unfold U64MAX; lia)). lia.
+    constructor; unfold tdb_total, tdb_is_empty; cbn [b_k b_cs b_buf b_cw b_min b_max length]; auto; try lia.
+    all: try (specialize (B ltac:(unfold U64MAX; lia)); lia).
   - destruct (ty =? COMPAT_FLOAT); [|discriminate].
     destruct (rd_be 8 r0) as [[mn r1]| |] eqn:E1; cbn [obind fst snd]; try discriminate.
     destruct (rd_be 8 r1) as [[mx r2]| |] eqn:E2; cbn [obind fst snd]; try discriminate.
@@ -301,10 +290,10 @@ Proof.
     destruct (rd_be 4 r3) as [[un r4]| |] eqn:E4; cbn [obind fst snd]; try discriminate.
     destruct (rd_be 2 r4) as [[n r5]| |] eqn:E6; cbn [obind fst snd]; try discriminate.
     destruct (read_compat true (N.to_nat n) r5 0) as [[cs cw]| |] eqn:E5; cbn [obind fst snd]; try discriminate.
-    intros H; inversion H; subst. apply read_compat_shape in E5 as (L & S1 & F & B & Len).
+    intros HH; inversion HH; subst. apply read_compat_shape in E5 as (L & S1 & F & B & Len).
     apply rd_be_len in E1, E2, E3, E4, E6.
-    constructor; cbn [b_k b_cs b_buf b_cw b_min b_max tdb_total tdb_is_empty length]; auto; try lia.
-    + specialize (B ltac:(unfold U64MAX; lia)). lia.
+    constructor; unfold tdb_total, tdb_is_empty; cbn [b_k b_cs b_buf b_cw b_min b_max length]; auto; try lia.
+    all: try (specialize (B ltac:(unfold U64MAX; lia)); lia).
 Qed.
 
 Theorem tdb_dec_shape f bs s : tdb_dec f bs = Ok s -> shaped s (length bs).
@@ -323,17 +312,14 @@ Proof.
   destruct (rd_le 2 r4) as [[un r5]| |] eqn:E5; cbn [obind fst snd]; try discriminate.
   apply rd_le_len in E0, E1, E2, E3, E4, E5.
   destruct (negb (N.land flags F_EMPTY =? 0)).
-  { intros H; inversion H; subst. constructor; cbn; auto; try lia; try discriminate. }
+  { intros HH; inversion HH; subst. constructor; cbn; auto; try lia; try discriminate. }
   destruct (negb (N.land flags F_SINGLE =? 0)).
   { destruct (rd_float_le f r5) as [[v r6]| |] eqn:E6; cbn [obind fst snd]; try discriminate.
     destruct (finite_ok v) eqn:Ef; cbn [negb]; [|discriminate].
-    intros H; inversion H; subst. apply rd_float_len in E6.
-    assert (Hlen6 : (4 <= length r5)%nat).
-    { unfold rd_float_le, rd_le in *. destruct f.
-      - destruct (Nat.ltb_spec (length r5) 4); [cbn in *; discriminate|lia].
-      - destruct (Nat.ltb_spec (length r5) 8); [discriminate|lia]. }
+    intros HH; inversion HH; subst. apply rd_float_len in E6.
+    assert (Hlen6 : (4 <= length r5)%nat) by (destruct f; lia).
     unfold finite_ok in Ef. apply andb_prop in Ef as [Ef1 Ef2]. apply negb_true_iff in Ef1.
-    constructor; cbn [b_k b_cs b_buf b_cw b_min b_max tdb_total tdb_is_empty length sumwN fold_right fst snd]; auto; try lia.
+    constructor; unfold tdb_total, tdb_is_empty, sumwN; cbn [b_k b_cs b_buf b_cw b_min b_max length fold_right fst snd]; auto; try lia.
     - constructor; [|constructor]. split; [unfold value_ok, finite_ok; cbn [fst]; rewrite Ef1, Ef2; reflexivity|cbn; lia].
     - unfold U64MAX. lia. }
   destruct (rd_le 4 r5) as [[nc r6]| |] eqn:E6; cbn [obind fst snd]; try discriminate.
@@ -345,13 +331,12 @@ Proof.
   destruct (read_centroids f (N.to_nat nc) r9 0) as [[[cs cw] rest]| |] eqn:E10; cbn [obind]; try discriminate.
   destruct (N.ltb_spec U64MAX (cw + nb)); [discriminate|].
   destruct (read_values f (N.to_nat nb) rest) as [[vs rest']| |] eqn:E11; cbn [obind fst snd]; try discriminate.
-  intros H; inversion H; subst.
-  apply read_centroids_shape in E10 as (L & S1 & _ & F & B & Len).
+  intros HH; inversion HH; subst.
+  apply read_centroids_shape in E10 as (L & S1 & F & B & Len).
   apply read_values_shape in E11 as (L2 & F2 & Len2).
   apply rd_le_len in E6, E7. apply rd_float_len in E8, E9.
-  constructor; cbn [b_k b_cs b_buf b_cw b_min b_max tdb_total tdb_is_empty]; auto; try lia.
-  - rewrite L2. lia.
-  - destruct f; lia.
+  constructor; unfold tdb_total, tdb_is_empty; cbn [b_k b_cs b_buf b_cw b_min b_max]; auto; try lia.
+  destruct f; lia.
 Qed.
 
 (* the sizes the readers hand to Vec::with_capacity are covered by the input *)
